@@ -132,3 +132,18 @@ Example C04_example :
   wf_mask (length gk) MNone /\ covered chunks MNone /\
   group_func_wrap fops Rnanmin gk chunks 2 MNone 1 = Ok ([fl_of_Z 1; fl_of_Z 3], [2; 1]).
 Proof. repeat split; try constructor; try discriminate; vm_compute; reflexivity. Qed.
+
+(* Tie B (pins): the functions this property's models transcribe read, statement by statement, as they did when the models
+   were written against them; Gen/SourcesGen.v is regenerated from /repo on every run (translator/pins.py). *)
+From GL Require Import Gen.SourcesGen Model.Sources Proofs.PinC04.
+Theorem C04_modelled_functions_are_the_source's :
+  gen_src_group_by_reduce = src_group_by_reduce /\
+  gen_src_apply_group_method_single_chunk = src_apply_group_method_single_chunk /\
+  gen_src_chunk_groupby_args = src_chunk_groupby_args /\
+  gen_src_reduce_array_pair = src_reduce_array_pair /\
+  gen_src_combine_chunk_results = src_combine_chunk_results /\
+  gen_src_group_func_wrap = src_group_func_wrap /\
+  gen_src_build_target_for_groupby = src_build_target_for_groupby /\
+  gen_src_group_mean = src_group_mean.
+Proof. exact (conj pin_group_by_reduce (conj pin_apply_group_method_single_chunk (conj pin_chunk_groupby_args (conj pin_reduce_array_pair (conj pin_combine_chunk_results (conj pin_group_func_wrap (conj pin_build_target_for_groupby pin_group_mean))))))). Qed.
+Print Assumptions C04_modelled_functions_are_the_source's.
